@@ -338,7 +338,7 @@ def run(run, tier):
     for key, (size, what, case, clause, obs) in seen.items():
         run.violation(key, what + ' [%s]' % ', '.join(qualifiers(case, OC.Oracle(case, OC.ENTRIES[case['entry']].sir))),
                       {'case': case, 'clause': clause, 'observed_row0': short(obs) if obs else None})
-    if blk['broken'] and not blk['found'] and not seen:
+    if blk['broken'] and not run.violations:          # (known findings are not in run.violations)
         for what, detail in blk['broken']:
             run.violation('C06/%s' % what, detail + ' -- the numerical versions of the theorems and the entry-point oracle found no failing input of the property',
                           {'broken': what, 'detail': detail}, no_input=True)
